@@ -36,6 +36,10 @@ pub fn model_feature(m: &Model, name: &str) -> bool {
             .cons
             .iter()
             .any(|p| matches!(p.cons, Cons::Element { .. }) && matches!(p.mode, Mode::ImpliedBy(_))),
+        "half_reified_incremental_cumulative" => m.cons.iter().any(|p| match &p.cons {
+            Cons::Cumulative { opts, .. } => !matches!(p.mode, Mode::Post) && matches!(opts.method, 1 | 2 | 4 | 5),
+            _ => false,
+        }),
         "has_reification" => m.cons.iter().any(|p| !matches!(p.mode, Mode::Post)),
         _ => false,
     }
